@@ -50,13 +50,16 @@ type Driver struct {
 	Cmd      func(c *Cluster, key, name string) (Event, error) // kubectl-eds shim (build tag verif)
 }
 
+// DefaultCmd is the kubectl-eds shim installed by the verif build.
+var DefaultCmd func(c *Cluster, key, name string) (Event, error)
+
 // NewDriver builds a cluster with the standard templates and a driver.
 func NewDriver(opts Options, w io.Writer) *Driver {
 	c := NewCluster(opts)
 	for _, id := range []string{"A", "B", "C"} {
 		c.AddTemplate(id, StdTemplate(id))
 	}
-	d := &Driver{C: c, Strategy: map[string]StrategyConfig{}}
+	d := &Driver{C: c, Strategy: map[string]StrategyConfig{}, Cmd: DefaultCmd}
 	if w != nil {
 		d.Out = bufio.NewWriterSize(w, 1<<20)
 	}
@@ -400,6 +403,7 @@ type WalkConfig struct {
 	Toggles   bool // pause/freeze/canary annotations
 	Foreign   bool
 	Narrow    bool // allow per-template fitness to differ
+	Commands  bool // kubectl-eds commands
 }
 
 type weighted struct {
@@ -475,6 +479,11 @@ func (d *Driver) Walk(r *rand.Rand, wc WalkConfig) {
 				weighted{3, func() Action { return Action{Op: "SetAnnotation", Key: key, V: "c-valid", W: pick(wc.Templates)} }},
 			)
 		}
+	}
+	if wc.Commands {
+		acts = append(acts, weighted{5, func() Action {
+			return Action{Op: "Cmd", Key: key, V: pick([]string{"canary-pause", "canary-unpause", "canary-validate", "canary-fail", "ru-pause", "ru-unpause", "freeze", "unfreeze"})}
+		}})
 	}
 	if wc.Foreign {
 		acts = append(acts,
